@@ -159,13 +159,21 @@ Definition greg_ms (d : Z) : Z :=
   let '(y, m, _) := civil (d + epoch1980) in days_from_civil y m 1 - epoch1980.
 Definition greg_ys (d : Z) : Z :=
   let '(y, _, _) := civil (d + epoch1980) in days_from_civil y 1 1 - epoch1980.
-Definition greg : cal := mkCal greg_ms greg_ys.
+(* the instance is Gregorian for 1980-01-01 .. 2100-12-31 (days 0 .. 44194);
+   outside that range every day is a month and a year of its own.  The
+   result of find does not depend on the calendar (Proofs/ChronProofs.v), only
+   the path of the walk does. *)
+Definition cal_lo : Z := 0.
+Definition cal_hi : Z := 44195.
+Definition clampf (f : Z -> Z) (d : Z) : Z := if (cal_lo <=? d) && (d <? cal_hi) then f d else d.
+Definition greg : cal := mkCal (clampf greg_ms) (clampf greg_ys).
 
 (* ---- Examples ---- *)
 Example civil_ex : civil 0 = (1970, 1, 1) /\ civil (epoch1980) = (1980, 1, 1)
                    /\ civil 19782 = (2024, 2, 29) /\ days_from_civil 2024 2 29 = 19782.
 Proof. vm_compute. repeat split. Qed.
-Example greg_ex : greg_ms 59 = 31 /\ greg_ms 60 = 60 /\ greg_ys 365 = 0 /\ greg_ys 366 = 366.
+Example greg_ex : greg_ms 59 = 31 /\ greg_ms 60 = 60 /\ greg_ys 365 = 0 /\ greg_ys 366 = 366
+                  /\ days_from_civil 2101 1 1 - epoch1980 = cal_hi.
 Proof. vm_compute. repeat split. Qed.
 
 (* the design-phase witness: entries on 2026-01-09 15:00 (id 1), 01-10 08:00
